@@ -269,17 +269,16 @@ Fixpoint meta_lines (lines : list bytes) : option (list (bytes * bytes)) :=
 Definition meta_kv (meta : bytes) : option (list (bytes * bytes)) :=
   meta_lines (split_byte meta c_nl).
 
-(* header: Some (hdrLen, meta) when the first hdrLen bytes are exactly
-   mappedHeader(meta) for the NUL-terminated metadata found there *)
+(* header: Some (hdrLen, meta).  The layout fixes the prefix, the length word
+   and where the table starts; the metadata is what follows the length word up
+   to the first NUL (or the end of the header).  The header may be longer than
+   the shortest one the library writes for that metadata (up to one page,
+   Parse's cap), and what follows the NUL is not interpreted. *)
 Definition spec_header (bs : bytes) : option (N * bytes) :=
   if negb (has_prefix bs c_hdrPrefix) then None else
   let hl := get32 bs hdr_np in
-  if (hl <? hdr_np + 4) || (len bs <? hl) then None else
-  let meta := cut_nul (slice bs (hdr_np + 4) (hl - (hdr_np + 4))) in
-  match mapped_header meta with
-  | Some h => if has_prefix bs h && (len h =? hl) then Some (hl, meta) else None
-  | None => None
-  end.
+  if (hl <? hdr_np + 4) || (16384 <? hl) || negb (hl mod 32 =? 0) || (len bs <? hl + 4 + 4 * 512) then None
+  else Some (hl, cut_nul (slice bs (hdr_np + 4) (hl - (hdr_np + 4)))).
 
 Definition rec_size (namelen : N) : N := (16 + namelen + 32 - 1) / 32 * 32.
 
